@@ -31,6 +31,16 @@ const (
 var rnsWho = []string{"A", "B", "C"}
 var rnsNames = []string{rnsN1, rnsN2}
 
+// rnsGen: the "free" names the Init message generates at heights 3 and 4, registered here as *paid* names of A
+var rnsGen = []string{rnstypes.MakeName(3, 3) + ".jkl", rnstypes.MakeName(4, 4) + ".jkl"}
+
+func (s RNS) watched() []string {
+	if s.Prop == "C08" {
+		return append(append([]string{}, rnsNames...), rnsGen...)
+	}
+	return rnsNames
+}
+
 type rnsModel struct {
 	Blocks int
 	// C09: what each bidder has escrowed for a name since its last cancel/accept, per the statement
@@ -57,6 +67,13 @@ func (s RNS) Config() world.Config {
 			g.NamesList = append(g.NamesList, rnstypes.Names{
 				Name: "exp", Tld: "jkl", Expires: rnsN2Expiry, Value: world.MakeAcct("A").Bech, Data: "{}", Subdomains: []*rnstypes.Names{},
 			})
+			if s.Prop == "C08" {
+				for _, n := range rnsGen {
+					g.NamesList = append(g.NamesList, rnstypes.Names{
+						Name: strings.TrimSuffix(n, ".jkl"), Tld: "jkl", Expires: 50_000_000, Value: world.MakeAcct("A").Bech, Data: `{"paid":true}`, Subdomains: []*rnstypes.Names{},
+					})
+				}
+			}
 			gs[rnstypes.ModuleName] = cdc.MustMarshalJSON(&g)
 		},
 	}
@@ -122,6 +139,7 @@ func (s RNS) Events(env world.Env, mm mc.Model) []string {
 				add("Accept:%s:Exp.jkl:%s", x, y)
 			}
 		} else {
+			add("Init:%s:-", x)
 			add("Register:%s:Alpha.jkl", x)
 			add("List:%s:Exp.jkl:5ujkl", x)
 			add("Buy:%s:EXP.jkl", x)
@@ -175,6 +193,8 @@ func subKey(n rnstypes.Names) string {
 func (s RNS) msgFor(w *world.World, p []string) sdk.Msg {
 	x := w.A(p[1]).Bech
 	switch p[0] {
+	case "Init":
+		return rnstypes.NewMsgInit(x)
 	case "Register":
 		return rnstypes.NewMsgRegisterName(x, p[2], 1, `{"by":"`+p[1]+`"}`, false)
 	case "List":
@@ -236,7 +256,7 @@ func (s RNS) Apply(env world.Env, mm mc.Model, ev string) mc.Step {
 	var vs []mc.Viol
 
 	if s.Prop == "C08" {
-		for _, n := range rnsNames {
+		for _, n := range s.watched() {
 			nb, okb := before.names[n]
 			if !okb {
 				continue
